@@ -61,6 +61,9 @@ pub struct Shadow {
     pub tainted: HashSet<u32>,
 }
 impl Shadow {
+    pub fn materialise_pub(&mut self) {
+        self.materialise()
+    }
     fn materialise(&mut self) {
         for h in self.reserved.drain(..) {
             self.ents.insert(h, BTreeMap::new());
@@ -179,6 +182,12 @@ pub struct Engine {
     pub shadow: Vec<Shadow>,
     pub ledger: Ledger,
     pub prepared: HashMap<u64, Box<dyn std::any::Any>>,
+    pub eb: Vec<EntityBuilder>,
+    pub ebc: Vec<EntityBuilderClone>,
+    pub built: Vec<Option<BuiltEntityClone>>,
+    pub batch: Vec<Option<(ColumnBatchBuilder, u32)>>,
+    pub cmd: Vec<CommandBuffer>,
+    pub cmd_spawns: Vec<usize>,
 }
 
 struct SpawnV<'a>(&'a mut World, &'a [u64]);
@@ -277,6 +286,12 @@ impl Engine {
             shadow: vec![Shadow::default(), Shadow::default()],
             ledger: Ledger::default(),
             prepared: HashMap::new(),
+            eb: (0..4).map(|_| EntityBuilder::new()).collect(),
+            ebc: (0..4).map(|_| EntityBuilderClone::new()).collect(),
+            built: (0..4).map(|_| None).collect(),
+            batch: (0..4).map(|_| None).collect(),
+            cmd: (0..2).map(|_| CommandBuffer::new()).collect(),
+            cmd_spawns: vec![0, 0],
         }
     }
 
@@ -288,6 +303,19 @@ impl Engine {
         } else {
             Entity::from_bits(x).unwrap_or(Entity::DANGLING)
         }
+    }
+
+    pub fn live_pub(&self, w: usize) -> bool {
+        self.live(w)
+    }
+    pub fn issue_pub(&mut self, w: usize, h: Entity, out: &mut Out) {
+        self.issue(w, h, out)
+    }
+    pub fn emit_pub(&mut self, obs: &mut Vec<u64>, code: u64, ret: &[u64], out: &mut Out) {
+        self.emit(obs, code, ret, out)
+    }
+    pub fn zvals_pub(&self, items: &[(u64, u64)]) -> Vec<(u64, u64)> {
+        self.zvals(items)
     }
 
     fn live(&self, w: usize) -> bool {
@@ -314,6 +342,12 @@ impl Engine {
             obs.push(t);
             obs.push(v);
         }
+    }
+
+    fn register_clones(&mut self, out: &mut Out) {
+        let c = drain_clones();
+        let sizes = self.sizes.clone();
+        self.ledger.give(&c, &sizes, out);
     }
 
     fn zvals(&self, items: &[(u64, u64)]) -> Vec<(u64, u64)> {
@@ -399,6 +433,22 @@ impl Engine {
 
     pub fn op(&mut self, opc: u64, r: &mut Rd, out: &mut Out) -> Vec<u64> {
         let mut obs = Vec::new();
+        if (50..=86).contains(&opc) {
+            let o = self.cont_op(opc, r, out);
+            self.register_clones(out);
+            return o;
+        }
+        if opc == 22 {
+            // drop every container
+            self.eb = (0..4).map(|_| EntityBuilder::new()).collect();
+            self.ebc = (0..4).map(|_| EntityBuilderClone::new()).collect();
+            self.built = (0..4).map(|_| None).collect();
+            self.batch = (0..4).map(|_| None).collect();
+            self.cmd = (0..2).map(|_| CommandBuffer::new()).collect();
+            self.cmd_spawns = vec![0, 0];
+            self.emit(&mut obs, 0, &[], out);
+            return obs;
+        }
         let w = r.next() as usize;
         if opc == 20 {
             // probe: `w` is the number of handle references
@@ -972,6 +1022,7 @@ type Canon = (Vec<BTreeMap<u64, BTreeMap<u64, u64>>>, Vec<Vec<(Vec<u64>, u32)>>)
 fn run_script(args: &[u64], out: &mut Out) -> Canon {
     let mut r = Rd { a: args, p: 0 };
     drain_drops();
+    reset_clone_serial();
     let mut eng = Engine::new();
     let mut canon: Canon = (Vec::new(), Vec::new());
     while !r.done() {
@@ -1011,6 +1062,12 @@ fn run_script(args: &[u64], out: &mut Out) -> Canon {
     }
     // implicit teardown for the ledger oracle (not part of the compared observations)
     let sizes = eng.sizes.clone();
+    eng.register_clones(out);
+    eng.eb.clear();
+    eng.ebc.clear();
+    eng.built.clear();
+    eng.batch.clear();
+    eng.cmd.clear();
     eng.worlds.clear();
     let d = drain_drops();
     eng.ledger.dropped(&d, &sizes, out);
